@@ -4,6 +4,8 @@ from .terms import Poly, mk_and, mk_or, mk_not, mk_implies
 from .domains import Unsupported, bvc
 from .symex import Ptr, SliceV, Comp, Iface, FuncV, NIL, VerifError, PathEnd
 from . import ssa as S
+from .cparse import parse_expr, split_label
+import re
 
 
 def do_call(run, st, ins):
@@ -258,6 +260,51 @@ def apply_contract(run, st, name, args, ins, bindings=None):
         env[nm] = wrap_typed(prog, args[i], p["type"])
     pre_mem = dict(st.mem)
     ev0 = Evaluator(run, st, pre_mem, env, phase="pre")
+    # case splits requested by the callee's contract: the caller's path is forked so that the
+    # split expression is concrete on each branch (the call instruction is re-executed)
+    for kind, txt in c.other:
+        if kind != "casesplit":
+            continue
+        m = re.match(r"^(.*)\s+in\s+(-?\d+)\s*\.\.\s*(-?\d+)$", txt)
+        if m:
+            e = ev0.int(parse_expr(m.group(1)))
+            if run.dom.concrete(e) is not None:
+                continue
+            lo, hi = int(m.group(2)), int(m.group(3))
+            rng = mk_and(run.dom.s_cmp("<=", run.dom.s_const(lo), e), run.dom.s_cmp("<", e, run.dom.s_const(hi)))
+            run.add_named(st, "pre", "pre.%s.casesplit" % short(cname), site, rng, "case split of %s over %d..%d is exhaustive" % (cname, lo, hi))
+            for k in range(lo, hi):
+                s2 = st.fork()
+                s2.pc -= 1
+                s2.assume(run.dom.s_cmp("==", e, run.dom.s_const(k)))
+                run.work.append(s2)
+            raise PathEnd()
+        else:
+            b = ev0.bool(parse_expr(txt))
+            if b is True or b is False or st.truth(b) is not None:
+                continue
+            for pol in (True, False):
+                s2 = st.fork()
+                s2.pc -= 1
+                s2.assume(b if pol else mk_not(b))
+                run.work.append(s2)
+            raise PathEnd()
+    # panics of the callee: the caller panics too on that branch
+    for kind, txt in c.other:
+        if kind != "panics":
+            continue
+        lab, e = split_label(txt)
+        b = ev0.bool(parse_expr(e))
+        tr = b if isinstance(b, bool) else st.truth(b)
+        if tr is False:
+            continue
+        if tr is True:
+            run.at_panic(st, ins)
+            raise PathEnd()
+        s2 = st.fork()
+        s2.assume(b)
+        run.at_panic(s2, ins)
+        st.assume(mk_not(b))
     for i, (lab, ast, txt) in enumerate(c.requires):
         g = ev0.bool(ast)
         run.add_named(st, "pre", "pre.%s.%s" % (cname.split(".")[-1] if False else short(cname), lab or str(i + 1)), site, g, "precondition of %s: %s" % (cname, txt))
@@ -267,10 +314,18 @@ def apply_contract(run, st, name, args, ins, bindings=None):
     for a in (c.assigns or []):
         cells.extend(ev0.loc_cells(a))
     pre_mem = dict(st.mem)
+    st.pending = {}
+    st.call_mark = len(st.hyps)
+    havocked = set()
     for (o, p, lt) in cells:
         info = run.objs[o]
         nm = "%s%s" % (info.name, prog.path_name(info.ty, p) if not info.lazy else "".join("[%s]" % x for x in p))
-        run.write_cell(st, o, p, run.fresh_value(st, lt, nm), site)
+        nv = run.fresh_value(st, lt, nm)
+        run.write_cell(st, o, p, nv, site)
+        havocked.add((o, p))
+        if run.mode == "ring" and prog.kind(lt) == "opaque":
+            (mono, _), = nv.poly.t.items()
+            st.pending[mono[0][0]] = (o, p)
     # result
     results = []
     rts = callee["results"]
@@ -294,6 +349,11 @@ def apply_contract(run, st, name, args, ins, bindings=None):
                 o = run.new_obj(prog.elem(rt), "res." + short(cname), "result")
                 run.init_obj_fresh(st, o, "res." + short(cname))
                 results.append(Ptr(o))
+                for (oo, pp, lt) in run.cells_under(o, ()):
+                    havocked.add((oo, pp))
+                    if run.mode == "ring" and prog.kind(lt) == "opaque":
+                        (mono, _), = st.mem[(oo, pp)].poly.t.items()
+                        st.pending[mono[0][0]] = (oo, pp)
             elif h is not None and h[0] == "cond":
                 # result is either nil or a given pointer depending on a condition: fork is avoided by a tagged value
                 raise Unsupported("conditional pointer result; use path-splitting ensures")
@@ -340,9 +400,11 @@ def apply_contract(run, st, name, args, ins, bindings=None):
         env2["result"] = wrapm(run, results[0], rts[0])
     for i, r in enumerate(results):
         env2["result%d" % i] = wrapm(run, r, rts[i])
-    ev1 = Evaluator(run, st, pre_mem, env2, phase="post", assigned=assigned_names(c))
+    ev1 = Evaluator(run, st, pre_mem, env2, phase="post", assigned=assigned_names(c), assume=True)
+    ev1.havocked = havocked
     for lab, ast, txt in c.ensures:
         st.assume(ev1.bool(ast))
+    st.pending = {}
     if len(results) == 0:
         return None
     if len(results) == 1:
@@ -377,6 +439,8 @@ def active_conjuncts(ast, ev):
     for cj in flatten_and(ast):
         if cj[0] == "bin" and cj[1] == "==>":
             c = ev.bool(("old", cj[2]))
+            if c is not True and c is not False:
+                c = ev.st.truth(c)
             if c is True:
                 out.extend(active_conjuncts(cj[3], ev))
             continue
